@@ -215,7 +215,7 @@ def worker(ctx):
         names = draw(st.lists(st.sampled_from(NAMES), min_size=k, max_size=k, unique=True))
         uses = draw(st.permutations(names))
         kind = draw(st.sampled_from(["mistyped_if", "mistyped_loop", "maybe_undef", "undef_expr", "leak", "double_use",
-                                     "two_funcs", "unsupported", "mistyped_elif"]))
+                                     "two_funcs", "unsupported", "mistyped_elif", "maybe_undef_nested", "maybe_undef_nested"]))
         L = ["@guppy", "def main() -> None:", "    cnd_ = 1 > 0"]
         if kind in ("mistyped_if", "mistyped_elif"):
             tys = [draw(st.sampled_from(TYPED)) for _ in names]
@@ -241,6 +241,25 @@ def worker(ctx):
                 L += [f"    u{i}_ = {n}" for i, n in enumerate(uses)]
             else:
                 L.append("    u_ = " + " + ".join(uses))
+        elif kind == "maybe_undef_nested":
+            # one variable assigned under several nested / sequential branch points: the diagnostic's
+            # "... if this expression is `False`" note has several candidate conditions to point at
+            depth = draw(st.integers(2, 4))
+            L = ["@guppy", "def main() -> None:"] + [f"    c{i}_ = {i + 1} > {i}" for i in range(depth)]
+            shape = draw(st.sampled_from(["nested", "sequential", "mixed", "loop"]))
+            x = names[0]
+            if shape == "nested":
+                for i in range(depth):
+                    L.append("    " * (i + 1) + f"if c{i}_:")
+                L.append("    " * (depth + 1) + f"{x} = 1")
+            elif shape == "sequential":
+                for i in range(depth):
+                    L += [f"    if c{i}_:", f"        {x} = {i}"]
+            elif shape == "mixed":
+                L += ["    if c0_:", "        if c1_:", f"            {x} = 1", "    else:", "        if c1_:", f"            {x} = 2"]
+            else:
+                L += ["    while c0_:", "        if c1_:", f"            {x} = 1", "        c0_ = False"]
+            L.append(f"    u_ = {x}")
         elif kind == "undef_expr":
             L.append("    u_ = " + " + ".join(n + "_undefined" for n in uses))
         elif kind == "leak":
